@@ -147,6 +147,8 @@ let c06 (h : shist) : string list =
 let c07 (h : shist) : string list =
   let hits = ref [] in
   let endt = last_time h in
+  let rel_at = Hashtbl.create 64 in
+  List.iter (fun ln -> match ln.w with ["ev"; "released"; q] -> Hashtbl.add rel_at (ln.inst, ln.t) (ios q) | _ -> ()) h.lines;
   Array.iteri (fun k (ic : sinst) ->
       let f = eff_factor ic.factor in
       let reserved = ref ic.reserved in
@@ -168,8 +170,11 @@ let c07 (h : shist) : string list =
                 Hashtbl.iter (fun p _ -> if p >= ios n then Hashtbl.remove counted p) (Hashtbl.copy counted)
             | ["lm"; "lease"; p] ->
                 let want = !want in
-                if ln.t <> !asked_t && Hashtbl.length counted >= want then
-                  hits := (Printf.sprintf "c07:lease-without-demand inst=%d t=%d a lease was requested while %d partitions are counted and %d are wanted" k ln.t (Hashtbl.length counted) want) :: !hits;
+                (* an expiry handler clears the partition first and raises its released event afterwards: a released
+                   event of this very instant may stand for a clear that the loop has already seen *)
+                let cleared_now = List.length (List.filter (fun q -> Hashtbl.mem counted q) (Hashtbl.find_all rel_at (k, ln.t))) in
+                if ln.t <> !asked_t && Hashtbl.length counted - cleared_now >= want then
+                  hits := (Printf.sprintf "c07:lease-without-demand inst=%d t=%d a lease was requested while %d partitions are counted and %d are wanted" k ln.t (Hashtbl.length counted - cleared_now) want) :: !hits;
                 if Hashtbl.mem counted (ios p) && not (List.exists (fun l2 -> l2.inst = k && l2.t = ln.t && l2.w = ["ev"; "released"; p]) h.lines) then
                   hits := (Printf.sprintf "c07:lease-of-counted inst=%d t=%d partition %s is requested while it is counted" k ln.t p) :: !hits;
                 if ios p >= !provisioned then
@@ -205,8 +210,10 @@ let c09 (h : shist) : string list =
     let t0 = ref 0 and asked = ref 0 and reserved = ref ic.reserved and provisioned = ref 0 and maxlat = ref 0 in
     let issue = ref 0 and wantp = ref 0 in
     let dead0 = death_time h 0 in
+    let started = ref false in
     List.iter (fun ln ->
         match ln.w with
+        | ["startret"; "0"] -> if ln.inst = 0 then (started := true; t0 := max !t0 ln.t)
         | ["act"; "giveme"; v] ->
             if ln.inst = 0 then begin
               let w = ceil_div (max 0 (ios v - !reserved)) f in
@@ -230,7 +237,7 @@ let c09 (h : shist) : string list =
     let want = min !wantp !provisioned in
     let window = lease + !provisioned * (mi + !maxlat) in
     let deadline = if !t0 = max_int then max_int else !t0 + lease + window in
-    if !peers_ok && want > 0 && !provisioned * (mi + !maxlat) < lease && deadline < min (last_time h) dead0 then begin
+    if !started && !peers_ok && want > 0 && !provisioned * (mi + !maxlat) < lease && deadline < min (last_time h) dead0 then begin
       let counted = Hashtbl.create 8 and best = ref 0 in
       List.iter (fun ln ->
           if ln.inst = 0 then
